@@ -43,7 +43,9 @@ def parse_policy(s):
             nxt = peek()
             raw = t[1].lstrip()
             if nxt is None or nxt == ')': raw = raw.rstrip()
-            if raw == '*': return [[]]
+            if raw == '*':
+                # the parser knows the broadcast policy only as the LAST element of a (sub)expression
+                return [[]] if (nxt is None or nxt == ')') else None
             if raw.count('::') != 1: return None
             d, n = raw.split('::')
             if d == '' or n == '': return None
@@ -67,7 +69,8 @@ def parse_policy(s):
         if peek() == '||':
             pos[0] += 1; r2 = expr()
             if r2 is None: return None
-            r = r + r2
+            # `x || *` IS the broadcast policy: the other operand's names are dropped (never looked up afterwards)
+            r = [[]] if ([] in r or [] in r2) else r + r2
         return r
     r = expr()
     if r is None or pos[0] != len(toks): return None
@@ -276,6 +279,12 @@ class Spec:
                 if rs is None: return 'err'
                 return 'ok:' + ','.join(sorted('r' + b''.join(leb(i) for i in sorted(r)).hex() for r in rs))
             return f'AP usk={show(self.usk_rights(self.dims, arg(f[1])))} enc={show(self.enc_rights(self.dims, arg(f[1])))}'
+        if op == 'HINT':
+            d = self.dims.get(arg(f[1]))
+            if d is None: return 'ERR'
+            for nme, e in d[1]:
+                if nme == arg(f[2]): e.hyb = f[3] == '1'; return 'OK'
+            return 'ERR'
         if op == 'RFBAD': return 'ERR' if self.usks else 'NOIDX'
         if op == 'SNAP':
             self.snaps.append(copy.deepcopy((self.dims, self.next_eid, self.msk, self.known))); return 'OK'
